@@ -203,15 +203,29 @@ def _group(family):
     return {"loss": "loss", "fn": "fn", "cons": "cons", "ml": "ml"}.get(family.split(":", 1)[0], "")
 
 
-def _on_grid(l):
-    """every coordinate of x=[...] of a FAIL line is a multiple of 1/4 (exact ties need exact coordinates)"""
+def _cb3_tie(l, fam):
+    """the point x=[...] of a FAIL line of chained_cb3I/II sits on an exact tie where the code's branch structure
+    (`v1 > max(v2,v3)` / `v2 > max(v1,v3)` / else: gradient of v3) returns the gradient of v3 although v3 is not the maximum
+    (same double arithmetic as the C++: products and sums in the same order)"""
+    import math
     m = re.search(r" x=\[([^\]]*)\]", l)
     if not m:
         return False
     try:
-        return all(float.fromhex(t) * 4 == int(float.fromhex(t) * 4) for t in m.group(1).split(",") if t)
+        x = [float.fromhex(t) for t in m.group(1).split(",") if t]
     except ValueError:
         return False
+    def pieces(a, b):
+        return (a * a) * (a * a) + b * b, (2.0 - a) * (2.0 - a) + (2.0 - b) * (2.0 - b), 2.0 * math.exp(-a + b)
+    def stale(v1, v2, v3):
+        return not (v1 > max(v2, v3)) and not (v2 > max(v1, v3)) and v3 < max(v1, v2)
+    pairs = [pieces(x[i], x[i + 1]) for i in range(len(x) - 1)]
+    if fam == "fn:chained_cb3I":
+        return any(stale(*p) for p in pairs)
+    s1 = s2 = s3 = 0.0
+    for v1, v2, v3 in pairs:
+        s1, s2, s3 = s1 + v1, s2 + v2, s3 + v3
+    return bool(pairs) and stale(s1, s2, s3)
 
 
 def _candidate_of(l, probes):
@@ -220,7 +234,7 @@ def _candidate_of(l, probes):
     clause, fam = p[1], _family(l)
     if clause == "strong-convexity" and re.match(r"ml:linear\(.*,l2\)$", fam) and probes.get("linear-strong-convexity"):
         return LINEAR_FP
-    if clause == "convexity" and fam in ("fn:chained_cb3I", "fn:chained_cb3II") and probes.get("cb3-tie") and _on_grid(l):
+    if clause in ("convexity", "subgradient") and fam in ("fn:chained_cb3I", "fn:chained_cb3II") and probes.get("cb3-tie") and _cb3_tie(l, fam):
         return CB3_FP
     if clause in ("convexity", "strong-convexity") and fam in ("cons:quadratic-eq(ns)", "cons:quadratic-ineq(ns)") and probes.get("quadratic-nonsymmetric"):
         return QUADNS_FP
